@@ -111,4 +111,13 @@ Section WithTables.
   Definition key_eqb (a b : str * nat) : bool := str_eqb (fst a) (fst b) && Nat.eqb (snd a) (snd b).
   Definition run_schemas (cases : list (list str * option (list (str * nat)))) : list N :=
     report (opt_eqb (list_eqb key_eqb)) build_keys (fun raw => [guard_F20k raw; guard_F20m raw]) cases.
+  (* end to end: compared as lists sorted by module stem (stems are pairwise distinct) *)
+  Definition pm_leb (a b : (str * str) * nat) : bool := str_leb (fst (fst a)) (fst (fst b)).
+  Definition pm_eqb (a b : (str * str) * nat) : bool :=
+    str_eqb (fst (fst a)) (fst (fst b)) && str_eqb (snd (fst a)) (snd (fst b)) && Nat.eqb (snd a) (snd b).
+  Definition pipeline_obs (raw : list str) : option (list ((str * str) * nat)) :=
+    match pipeline_models raw with Some l => Some (isort pm_leb l) | None => None end.
+  Definition run_pipeline (cases : list (list str * option (list ((str * str) * nat)))) : list N :=
+    report (opt_eqb (list_eqb pm_eqb)) pipeline_obs
+           (fun raw => [guard_F20k raw; guard_F20m raw; forallb guard_F20a (map class_name raw)]) cases.
 End WithTables.
